@@ -289,10 +289,8 @@ class C19:
                 try:
                     exec(compile(reject_source(case["reject"], case["async"]), "<c19>", "exec"), ns)
                     fails.append(("not-rejected", f"decorating a function with a {case['reject']} resource marker did not raise"))
-                except TypeError:
+                except Exception:  # noqa: BLE001 - "rejected when the decorator is applied": the class is not stated
                     pass
-                except BaseException as e:  # noqa: BLE001
-                    fails.append(("not-rejected", f"decoration raised {e!r} instead of TypeError"))
             else:
                 fails = await self.one_case(env, case, res)
             if fails:
